@@ -14,13 +14,12 @@ the analysed code never enter.
 """
 from __future__ import annotations
 
-import ast
 import hashlib
 from fractions import Fraction
 
 from ..model import AnalysisError
 from ..symex import Symex, Obj
-from ..terms import T, sym, t_mul, t_add, t_pow, t_div, is_num, canon, show, subterms
+from ..terms import T, sym, t_mul, t_add, t_pow, is_num, canon, show, subterms
 
 NAMES = dict(eri="V", coulomb="v", fock="f", operator="d", gs_amplitude="t", gs_density="p",
              left_adc_amplitude="X", right_adc_amplitude="Y", orb_energy="e", sym_orb_denom="D")
@@ -664,6 +663,9 @@ class World:
         for name in list(h):
             if name in SIG and callable(h[name]):
                 h[name] = (lambda sx, a, kw, f=h[name], name=name: f(sx, *named(sx, name, a, kw)))
+        for name in list(h):
+            if callable(h[name]):
+                h[name] = _guarded(name, h[name])
         return h
 
     def _h_expr(self, sx, a, kw):
@@ -741,6 +743,17 @@ def _record(name, attrs):
     o = Obj(None, name)
     o.attrs.update(attrs)
     return o
+
+
+def _guarded(name, f):
+    """A hook that cannot interpret its arguments is an analysis error (exit 2), never a crash of the checker."""
+    def g(sx, a, kw):
+        try:
+            return f(sx, a, kw)
+        except (TypeError, KeyError, AttributeError, IndexError, ValueError) as e:
+            raise AnalysisError(f"C13 model: the vocabulary function `{name}` is called with arguments the model cannot "
+                                f"interpret ({type(e).__name__}: {str(e)[:120]})")
+    return g
 
 
 def raw_name(x):
